@@ -31,6 +31,9 @@ def random_world(rnd, k):
         for _ in range(rnd.choice([1, 1, 2])):
             a = t + rnd.randint(0, horizon // 2); b = a + rnd.choice([0, 0, 2, 5, horizon])
             out.append([a, b]); t = b + 1
+        # windows of a place need not be listed in the order of time (the later one first in a third of the two-window places)
+        if len(out) == 2 and rnd.random() < 0.35:
+            out.reverse()
         return out
     jobs = []
     for i in range(rnd.randint(5, 7)):
